@@ -3,7 +3,7 @@
    deadline are runtime behaviour: measured by the harness, no theorem).
    Only property statements here; each is closed by [exact] or two lines. *)
 From Lal Require Import Common.LBytes Flv.FlvTag Flv.FlvWs Flv.FlvProofs
-  Queue.QueueSubseq Queue.QueueWrite Queue.QueueWriteProofs Queue.QueueRtspSweepProofs.
+  Queue.QueueSubseq Queue.QueueWrite Queue.QueueWriteProofs Queue.QueueRtspSweepProofs Queue.QueueInboundProofs.
 Open Scope N_scope.
 
 (* --- nobody waits -------------------------------------------------------- *)
@@ -95,6 +95,8 @@ Print Assumptions c15_framing_ts.
 Theorem c15_framing_rtp : forall specs evs j su cap s,
   nth_error specs j = Some (KRtp su, cap) ->
   nth_error (fst (run evs (init_state specs))) j = Some s ->
+  no_replies (KRtp su) evs ->     (* any inbound traffic but OPTIONS, whose reply is RTSP text between the frames
+                                     (a whole unit by c15_whole_units; read by the python oracle's mixed parser) *)
   (forall b, In b (pub_payloads evs) -> lenN b < 65536) ->
   exists pkts tail,
     c_wire (s_conn s) = concat (map (fun x => pack_interleaved (fst x) (snd x)) pkts) ++ tail /\
@@ -103,10 +105,30 @@ Theorem c15_framing_rtp : forall specs evs j su cap s,
     parses rtp_parse1 (concat (map (fun x => pack_interleaved (fst x) (snd x)) pkts)) pkts /\
     tail_ok (KRtp su) evs s tail.
 Proof.
-  intros specs evs j su cap s Hk Hs Hp. rewrite (run_session specs evs j (KRtp su) cap Hk) in Hs.
-  inversion Hs; subst. apply rtp_stream. exact Hp.
+  intros specs evs j su cap s Hk Hs Hn Hp. rewrite (run_session specs evs j (KRtp su) cap Hk) in Hs.
+  inversion Hs; subst. apply rtp_stream; assumption.
 Qed.
 Print Assumptions c15_framing_rtp.
+
+(* ... and WITH OPTIONS keep-alives: the stream is '$' frames and the replies;
+   the RFC 2326 section 10.12 reader ([rtsp_parse1]: '$' -> binary frame, 'R' ->
+   header block up to the first empty line) reads all of its whole-unit part,
+   provided every reply text is a header block ([resp_ok]; lal's is). *)
+Theorem c15_framing_rtp_keepalive : forall specs evs j su cap s,
+  nth_error specs j = Some (KRtp su, cap) ->
+  nth_error (fst (run evs (init_state specs))) j = Some s ->
+  (forall b, In b (pub_payloads evs) -> lenN b < 65536) ->
+  (forall i size resp, In (EvIn i size (InOptions resp)) evs -> resp_ok resp) ->
+  exists whole tail frames,
+    c_wire (s_conn s) = concat whole ++ tail /\
+    subseq whole (map ubytes (offered (KRtp su) evs)) /\
+    parses rtsp_parse1 (concat whole) frames /\
+    tail_ok (KRtp su) evs s tail.
+Proof.
+  intros specs evs j su cap s Hk Hs Hp Hr. rewrite (run_session specs evs j (KRtp su) cap Hk) in Hs.
+  inversion Hs; subst. apply rtp_stream_mixed; assumption.
+Qed.
+Print Assumptions c15_framing_rtp_keepalive.
 
 (* RTMP, Write and Writev: any message-stream reader that reads each published
    unit (the chunks of whole messages) as a self-contained piece reads the
@@ -116,14 +138,21 @@ Theorem c15_framing_rtmp : forall (F : Type) (p1 : bytes -> option (F * bytes)) 
   nth_error specs j = Some (k, cap) ->
   nth_error (fst (run evs (init_state specs))) j = Some s ->
   (forall b, In b (pub_payloads evs) -> exists fs, unit_law p1 b fs) ->
+  (forall ts, exists fs, unit_law p1 (rtmp_pong ts) fs) ->   (* the reader also reads a ping response: the read loop's
+                                                               replies to the player's pings share the queue *)
   exists whole tail frames,
     c_wire (s_conn s) = concat whole ++ tail /\
-    subseq whole (pub_payloads evs) /\
+    subseq whole (map ubytes (offered k evs)) /\
+    (forall u, In u (offered k evs) ->
+       (exists b, In b (pub_payloads evs) /\ ubytes u = b) \/ (exists ts, ubytes u = rtmp_pong ts)) /\
     parses p1 (concat whole) frames /\
     tail_ok k evs s tail.
 Proof.
-  intros F p1 specs evs j k cap s Hkk Hk Hs Hp. rewrite (run_session specs evs j k cap Hk) in Hs.
-  inversion Hs; subst. apply rtmp_stream; assumption.
+  intros F p1 specs evs j k cap s Hkk Hk Hs Hp Hpong. rewrite (run_session specs evs j k cap Hk) in Hs.
+  inversion Hs; subst.
+  destruct (rtmp_stream p1 evs j k cap Hkk Hp Hpong) as [whole [tail [frames [H1 [H2 [H3 H4]]]]]].
+  exists whole, tail, frames. split; [exact H1|split; [exact H2|split; [|split; [exact H3|exact H4]]]].
+  intros u Hu. apply (in_offered_rtmp k evs u Hkk Hu).
 Qed.
 Print Assumptions c15_framing_rtmp.
 
@@ -135,13 +164,14 @@ Theorem c15_framing_ws : forall specs evs j k cap s,
   nth_error specs j = Some (k, cap) ->
   nth_error (fst (run evs (init_state specs))) j = Some s ->
   (forall b, In b (pub_payloads evs) -> lenN b < (if is_rtp k then 65536 else 9223372036854775808)) ->
+  (forall i size resp, In (EvIn i size (InOptions resp)) evs -> lenN resp < 9223372036854775808) ->
   exists payloads tail,
     c_wire (s_conn s) = concat (map ws_write payloads) ++ tail /\
     subseq (map ws_write payloads) (map ubytes (offered k evs)) /\
     parses ws_parse1 (concat (map ws_write payloads)) payloads /\
     tail_ok k evs s tail.
 Proof.
-  intros specs evs j k cap s Hkk Hk Hs Hp. rewrite (run_session specs evs j k cap Hk) in Hs.
+  intros specs evs j k cap s Hkk Hk Hs Hp Hr. rewrite (run_session specs evs j k cap Hk) in Hs.
   inversion Hs; subst. apply ws_stream.
   destruct Hkk as [-> | [-> | [su ->]]]; cbn [is_rtp] in Hp;
     [apply ws_units_flv_ts; auto|apply ws_units_flv_ts; auto|apply ws_units_rtp; assumption].
@@ -255,6 +285,65 @@ Theorem c15_sweep_rtsp_pinned_refuted :
   c_closed (s_conn (f34_rounds sess_write 1 f34_start)) = true.
 Proof. exact sweep_rtp_pinned_refuted. Qed.
 Print Assumptions c15_sweep_rtsp_pinned_refuted.
+
+(* --- inbound traffic ------------------------------------------------------------ *)
+(* What the PLAYER sends while it is a subscriber ([EvIn]): RTCP receiver reports
+   / RTP / anything on the interleaved connection, datagrams to lal's sockets,
+   RTSP keep-alives (OPTIONS: answered through the queue; GET_PARAMETER and other
+   unknown requests: ignored), RTMP acks and pings (ping: answered through the
+   queue), bytes on an HTTP / WebSocket subscription (its one-Read RunLoop ends).
+   [quiet] and [idle_ev] admit every such event, so c15_sweep_stalled,
+   c15_sweep_rtsp_stalled and c15_sweep_rtsp_unrouted above already quantify
+   over all inbound schedules; c15_nonblocking counts them as the sender's own
+   events.  Stated here on their own: *)
+
+(* any input, any kind, any set-up state, any state of the queue: the session's
+   write counter and the recorded stale value are untouched; the counter the
+   sweep compares is unchanged or the session is closed (read loop ended) *)
+Theorem c15_inbound_no_write_progress : forall size x s,
+  s_acc (in_local size x s) = s_acc s /\ s_stale (in_local size x s) = s_stale s /\
+  (c_closed (s_conn (in_local size x s)) = true \/ sess_wrote (in_local size x s) = sess_wrote s).
+Proof. exact in_local_no_progress. Qed.
+Print Assumptions c15_inbound_no_write_progress.
+
+(* input that is neither answered nor ends the read loop - interleaved RTCP /
+   RTP, datagrams, GET_PARAMETER, RTMP acks - changes the connection's READ
+   counter and nothing else *)
+Theorem c15_inbound_read_counter_only : forall size x s,
+  in_reply (s_kind s) x = None -> in_ends (s_kind s) = false ->
+  in_local size x s = s \/ in_local size x s = add_crd size s.
+Proof. exact in_local_pure. Qed.
+Print Assumptions c15_inbound_read_counter_only.
+
+(* liveness of an out-session is decided by write progress only: a consumer to
+   which nothing is written between two sweeps (byte-counter kinds: no completed
+   write; rtsp interleaved in any set-up state: queue jammed) is closed by the
+   second sweep for EVERY schedule of inbound traffic in between *)
+Theorem c15_inbound_never_keeps_alive : forall evs s,
+  Forall (quiet (s_id s)) evs ->
+  is_rtp (s_kind s) = false \/
+  (is_rtp (s_kind s) = true /\ su_no_udp (kind_setup (s_kind s)) = true /\ jammed (s_conn s)) ->
+  c_closed (s_conn (sweep_one (srun evs (sweep_one s)))) = true.
+Proof. exact inbound_never_keeps_alive. Qed.
+Print Assumptions c15_inbound_never_keeps_alive.
+
+(* the hypotheses admit inbound events of every kind, from anybody *)
+Theorem c15_inbound_is_quiet : forall id su i size x, quiet id (EvIn i size x) /\ idle_ev su (EvIn i size x).
+Proof. intros. split; [apply quiet_in|apply idle_in]. Qed.
+Print Assumptions c15_inbound_is_quiet.
+
+(* The property was FALSE of the code as it stood (F-35): a reply of an rtsp-over-
+   WebSocket session (to the OPTIONS keep-alive of a playing subscriber, among
+   others) was a header write and a text write; a media frame of the forwarding
+   goroutine between the two breaks the player's frame stream - reproduced on Go
+   with a reading player within a few hundred frames. *)
+Theorem c15_ws_reply_split_refuted :
+  parse_all ws_parse1 20
+    (f35_wire [[make_ws_frame_header true false false false 2 (lenN f35_resp) false 0]; [f35_media]; [f35_resp]]) = None /\
+  parse_all ws_parse1 20 (f35_wire [[f35_media]; [ws_write f35_resp]]) = Some [pack_interleaved 0 [128; 96]; f35_resp] /\
+  parse_all ws_parse1 20 (f35_wire [[ws_write f35_resp]; [f35_media]]) = Some [f35_resp; pack_interleaved 0 [128; 96]].
+Proof. exact ws_reply_split_refuted. Qed.
+Print Assumptions c15_ws_reply_split_refuted.
 
 (* --- no retry --------------------------------------------------------------- *)
 (* A session-level write of any kind, in any state of its queue (room, full,
